@@ -137,11 +137,12 @@ func refPM(pattern, ident string, exact bool) (string, bool) {
 }
 
 var plainPool = []string{"ID", "Id", "id", "Name", "name", "NAME", "User.Name", "user.name", "User.ID", "A", "a", "A.B", "a.b",
-	"µs", "Μs", "μs", "ſ", "s", "S", "Kelvin", "kelvin", "ς", "Σ", "σ", "Å", "å", "X.Y.Z", "x.y.z", "URL", "Url", "a+b", "A(B)", "", ".", "a.", "$1"}
+	"µs", "Μs", "μs", "ſ", "s", "S", "Kelvin", "kelvin", "ab", "AB", "Ab", "aB", "CreatedAt", "createdat", "Straße", "STRASSE", "STRAẞE", "straße", "ς", "Σ", "σ", "Å", "å", "X.Y.Z", "x.y.z", "URL", "Url", "a+b", "A(B)", "", ".", "a.", "$1"}
 
 var rePool = []string{`/^A/`, `/^a/`, `/\S+e/`, `/\s/`, `/[A-Z]+/`, `/[a-z]+$/`, `/\pL/`, `/\pL{2}/`, `/(?P<n>a)b/`, `/(?P<N>A)B/`, `/a|B/`,
 	`/\bID\b/`, `/\d+$/`, `/.*Name/`, `/\x41/`, `/\QA.B\E/`, `/[/`, `/(/`, `/`, `//`, `/a`, `a/`, `/A.B/`, `/^User\.(Name|ID)$/`, `/\W/`, `/\D/`,
-	`/[[:upper:]]/`, `/[^a-z.]/`, `/(?i)name/`, `/(?-i)Name/`, `/µ/`, `/Μ/`, `/ſ/`, `/\p{Greek}/`, `/\PL/`, `/\BD/`, `/\Ax/`, `/a\z/`, `/^$/`, `/./`}
+	`/[[:upper:]]/`, `/[^a-z.]/`, `/(?:name|id)$/`, `/(?:NAME|ID)$/`, `/(?:ab)/`, `/(?:A)b/`, `/(?s)user\.name/`, `/(?P<x>k)elvin/`, `/(?:created|updated)at$/`,
+	`/(?U)a+/`, `/(?m)^id$/`, `/(?i)name/`, `/(?-i)Name/`, `/µ/`, `/Μ/`, `/ſ/`, `/\p{Greek}/`, `/\PL/`, `/\BD/`, `/\Ax/`, `/a\z/`, `/^$/`, `/./`}
 
 func genScript(r *rand.Rand) Script {
 	s := Script{Kind: "pm", Case: r.Intn(2) == 0}
